@@ -183,7 +183,21 @@ impl<T: ?Sized> RwLock<T> {
     }
 
     fn read_unlock(&self) {
-        let mut r = self.rlock.lock().expect("rwlock read_unlock");
+        // a guard drop must not be a cancellation point, or the reader would
+        // never be uncounted (and a drop during a cancel unwind would abort)
+        let cancel = if crate::coroutine_impl::is_coroutine() {
+            Some(crate::coroutine_impl::current_cancel_data())
+        } else {
+            None
+        };
+        if let Some(c) = cancel {
+            c.disable_cancel();
+        }
+        let r = self.rlock.lock();
+        if let Some(c) = cancel {
+            c.enable_cancel();
+        }
+        let mut r = r.expect("rwlock read_unlock");
         *r -= 1;
         if *r == 0 {
             self.unlock();
